@@ -274,13 +274,21 @@ class Ctx:
         if rc != 0:
             m = re.search(r'line (\d+), characters', err)
             where = ""
+            req_note = ""
             if m:
                 ln = int(m.group(1))
                 lines = open(src).read().splitlines()
                 prev = [n for n in names if any(re.match(r"\s*(?:Theorem|Lemma|Example|Corollary)\s+" + re.escape(n) + r"\b", l)
                                                 for l in lines[:ln])]
                 where = prev[-1] if prev else "header/imports"
-            self.broken.append(f"theorem {where or '?'} in props/{self.pid}.v no longer checks: "
+                # a `From Sketchnu Require <tie library>` in the middle of the file belongs to the block that follows it:
+                # attribute its failure to the first theorem after that line, not to the last one before it
+                if 0 < ln <= len(lines) and re.match(r"\s*(From\s+\S+\s+)?Require\b", lines[ln - 1]) and prev:
+                    nxt = [n for n in names if n not in prev]
+                    if nxt:
+                        where = nxt[0]
+                        req_note = " (the library required for it, " + lines[ln - 1].strip() + ", does not load)"
+            self.broken.append(f"theorem {where or '?'}{req_note} in props/{self.pid}.v no longer checks: "
                                + err.strip().replace("\n", " ")[:400]
                                + (" | translator obligations not met: " + str(self.translator_errors)
                                   if getattr(self, "translator_errors", None) else ""))
